@@ -445,11 +445,18 @@ func init() {
 			case 2:
 				n = 200 + r.intn(2000)
 			}
+			if r.chance(1, 25) {
+				n = 4000 + r.intn(120000) // large: very redundant ones shrink a hundredfold, and their compressed form is compressible again
+			}
 			if n < 0 {
 				n = 0
 			}
 			b := make([]byte, n)
-			switch r.intn(5) {
+			kind := r.intn(5)
+			if n >= 4000 && r.chance(1, 2) {
+				kind = 0
+			}
+			switch kind {
 			case 0: // constant
 				c := byte('0' + r.intn(3))
 				for i := range b {
